@@ -422,7 +422,7 @@ class TorchCalls(TorchOps):
         full_rows = stop is not None and stop.size_of == "R" and (start is None or self.const_int(args[0]) == 0) and len(args) < 3
         self._range_n = getattr(self, "_range_n", 0) + 1
         ivar = f"i#{self._range_n}"
-        self.ev("range", node, var=ivar, stop_poly=stop.poly if stop is not None else None, start_poly=start.poly if start is not None else None, nargs=len(args),
+        self.ev("range", node, stack=[f.qualname for f in self.interp.call_stack], var=ivar, stop_poly=stop.poly if stop is not None else None, start_poly=start.poly if start is not None else None, nargs=len(args),
                 step_poly=step.poly if step is not None else None)
         elem = TV(kind="pyint", idx_of="R" if full_rows else None, note="range-index", poly=Poly.sym(ivar) if not full_rows else None,
                   p=True, origin=(stop.origin if stop is not None else frozenset()) | {"loop-index"})
